@@ -154,11 +154,15 @@ impl Skeleton {
         let mut f = vec![
             "(define log '())".to_string(),
             "(define (note tag v) (set! log (cons (list tag v) log)) v)".to_string(),
-            format!("(define {} 'ga)", self.names[0]),
-            format!("(define {} 'gb)", self.names[1]),
-            format!("(define {} 'gc)", self.names[2]),
-            format!("(define f1 {})", self.lambda(0)),
         ];
+        // over builtin names the globals stay what they are: builtin procedures (a free reference reads the
+        // builtin, every lexical binding of the name must win over it)
+        if self.names[0] == "a" {
+            f.push(format!("(define {} 'ga)", self.names[0]));
+            f.push(format!("(define {} 'gb)", self.names[1]));
+            f.push(format!("(define {} 'gc)", self.names[2]));
+        }
+        f.push(format!("(define f1 {})", self.lambda(0)));
         if l == 1 {
             f.push(format!("(f1 {})", args(&self.levels[0], 1, 2)));
             f.push(format!("(f1 {})", args(&self.levels[0], 1, 3)));
